@@ -11,7 +11,30 @@ pub struct F(pub f32);            // PartialEq only: float-like
 pub fn by_f(a: &F, b: &F) -> bool { a.0.to_bits() == b.0.to_bits() }
 pub fn by_u(a: &u8, b: &u8) -> bool { a == b }
 pub fn cmp_f(a: &F, b: &F) -> ::core::cmp::Ordering { a.0.total_cmp(&b.0) }
+pub fn cmp_u(a: &u8, b: &u8) -> ::core::cmp::Ordering { a.cmp(b) }
 '''
+
+
+def double_options():
+    """one field carrying BOTH #[eq(..)] and #[ord(..)]: the more specific #[eq(..)] decides what is compared"""
+    out = []
+    for tn, t in (('u8', sx.tid('u8')), ('F', sx.tid('F'))):
+        keys = {'key-eq': ('( $ / 2 )' if tn == 'u8' else '$ . 0 . to_bits ( )', True),
+                'key-noneq': ('( $ as f32 )' if tn == 'u8' else '$ . 0', False)}
+        def mk(attr, opt):
+            if opt == 'by':
+                fn = ('by_' if attr == 'eq' else 'cmp_') + tn[0].lower()
+                return sx.a_cmp(attr, sx.m_list(sx.cargs(by=fn))), True
+            return sx.a_cmp(attr, sx.m_list(sx.cargs(key=keys[opt][0]))), keys[opt][1]
+        for eo in ('key-eq', 'key-noneq', 'by'):
+            for oo in ('key-eq', 'key-noneq', 'by'):
+                ea, ok = mk('eq', eo)
+                oa, _ = mk('ord', oo)
+                for order in (0, 1):
+                    out.append(('%s-eq:%s+ord:%s%s' % (tn, eo, oo, '-rev' if order else ''), t,
+                                [ea, oa] if order == 0 else [oa, ea], ok))
+    return out
+
 
 # (name, field type sexp, attribute list builder(attr_name) , component is Eq?)
 def field_options(attr):
@@ -35,7 +58,8 @@ class C17(Prop):
     tag = 'the Eq impl and its hidden checker (CONST part)'
     rule = ('EXHAUSTIVE over: {struct named/tuple, enum with the field in the 1st/2nd variant} x 1-2 fields, each from 8 '
             'options {u8, F (PartialEq only), F ignored, F key->Eq, u8 key->non-Eq, F key->non-Eq, F by, u8 key->Eq} on '
-            '#[eq(..)] or #[ord(..)] x both entry points; plus generic X<T> with default / overriding bound(..); compiled '
+            '#[eq(..)] or #[ord(..)] x both entry points; one field carrying both #[eq(o1)] and #[ord(o2)], o in {key->Eq, key->non-Eq, by}, '
+            'either order; plus generic X<T> with default / overriding bound(..); compiled '
             '(metadata only) against the real proc-macro: accepted iff every compared component is Eq; non-trivial = every case')
     assumptions = ['rustc rejects an unsatisfied `T: Eq` obligation (trusted; observed on every rejecting case)']
 
@@ -68,6 +92,22 @@ class C17(Prop):
                         req = sx.inv_derive(kw + sx.a_derive_ex(sx.dx(tl)) + ' ' + it[len(kw):])
                     out.append((req, dict(features=(attr, shape, mode) + tuple(o[0] for o in fl),
                                           ok=all(o[3] for o in fl), nontrivial=True)))
+        # both #[eq(..)] and #[ord(..)] on one field
+        for fo, shape, mode in itertools.product(double_options(), ('named', 'tuple', 'enum1'), ('attr', 'derive')):
+            name, t, at, ok = fo
+            fs = [sx.field(t, name='f0' if shape != 'tuple' else None, attrs=at),
+                  sx.field(sx.tid('u8'), name='f1' if shape != 'tuple' else None)]
+            body = sx.named(fs) if shape != 'tuple' else sx.unnamed(fs)
+            if shape == 'enum1':
+                it = sx.enum('E', [sx.variant('B', sx.UNIT), sx.variant('A', body)])
+                kw = '(enum ('
+            else:
+                it = sx.struct('X', body)
+                kw = '(struct ('
+            tl = [('Eq', None), ('PartialEq', None)]
+            req = sx.inv_attr(sx.dx(tl), it) if mode == 'attr' else sx.inv_derive(
+                kw + sx.a_derive_ex(sx.dx(tl)) + ' ' + it[len(kw):])
+            out.append((req, dict(features=('double', shape, mode, name), ok=ok, nontrivial=True)))
         # generic: the checker re-uses the impl's where-clause
         T = sx.tid('T')
         gen = sx.generics([sx.gp_ty('T')])
